@@ -176,24 +176,39 @@ def minimise(trace, want, fails, budget_s=240, log=print):
                 r = attempt(cand)
                 if r:
                     accept(r)
-    # 7. merge schedule segments
+    # 7. merge schedule segments (ddmin over context switches: collapse whole blocks of segments so that
+    #    each thread's steps inside the block become contiguous; the run that still fails supplies the
+    #    schedule it actually executed, which replaces the candidate)
     if len(cur['callers']) > 1 and cur.get('schedule'):
-        changed = True
-        while changed and time.time() < t_end:
-            changed = False
+        def collapse(block):
+            order, tot, fin = [], {}, {}
+            for sg in block:
+                if sg[0] not in tot:
+                    order.append(sg[0])
+                    tot[sg[0]] = 0
+                tot[sg[0]] += sg[1]
+                fin[sg[0]] = sg[2] if len(sg) > 2 else 0
+            return [[t_, tot[t_], fin[t_]] for t_ in order]
+        chunk = max(2, len(cur['schedule']) // 2)
+        while chunk >= 2 and time.time() < t_end:
             segs = cur['schedule']
-            for i in range(len(segs) - 2, -1, -1):
-                if len(segs) <= 2:
-                    break
-                cand = copy.deepcopy(cur)
-                s = cand['schedule']
-                # give segment i+1's steps to segment i's thread boundary: drop segment i+1
-                del s[i + 1]
-                r = attempt(cand)
-                if r and len(r[0].get('schedule') or []) < len(segs):
-                    accept(r)
-                    changed = True
-                    break
+            progressed = False
+            start = 0
+            while start < len(segs) and time.time() < t_end:
+                block = segs[start:start + chunk]
+                col = collapse(block)
+                if len(col) < len(block):
+                    cand = copy.deepcopy(cur)
+                    cand['schedule'] = segs[:start] + col + segs[start + chunk:]
+                    r = attempt(cand)
+                    if r and len(r[0].get('schedule') or []) < len(segs):
+                        accept(r)
+                        segs = cur['schedule']
+                        progressed = True
+                        continue
+                start += chunk
+            if not progressed or chunk > len(cur['schedule']):
+                chunk //= 2
     log(f'minimiser executed {tries[0]} candidate runs')
     return cur, v, res
 
